@@ -41,6 +41,7 @@ def stream_block(rep, work, vh, gojq, r, quick, only=None):
     (tostream) - the command's output takes the place of the recorded library output in the trace record."""
     import subprocess
     prelude = evalfam.make_prelude(work, vh)
+    # (the documents are written with sorted keys: --stream reports members in document order, tostream in key order)
     docs = [[[1], [2]], [[1, [2, 3]], {"a": [4, {"b": []}]}], {"a": [1, 2], "b": {"c": [[3]], "d": {}}}, [[[[1]]], [[2]], [3]], [], {}, 5, [1, 2, 3], {"a": {"b": {"c": 1}}, "d": [[], [[]]]}, [[], [1], [1, 2], [1, 2, 3]],
             [{"k": [1, [2, [3, [4]]]]}, [[5]]], "s", [None, [False, [True]]]] + ([] if quick else [jqgen.rand_value(r, 4) for _ in range(300)])
     if only:
@@ -50,7 +51,7 @@ def stream_block(rep, work, vh, gojq, r, quick, only=None):
     scases, meta = [], []
     for d in docs:
         for args, q, lq in progs:
-            p = subprocess.run([gojq] + list(args) + [q], input=json.dumps(d), capture_output=True, text=True, timeout=60)
+            p = subprocess.run([gojq] + list(args) + [q], input=json.dumps(d, sort_keys=True), capture_output=True, text=True, timeout=60)
             try:
                 outs = [jqgen.V(json.loads(line)) for line in p.stdout.splitlines()] if p.returncode == 0 else None
             except Exception:
